@@ -8,6 +8,8 @@ use crate::prng::Rng;
 
 pub mod aead;
 pub mod polyedge;
+#[cfg(all(feature = "nightly", not(feature = "asan")))]
+pub mod heapwatch;
 #[cfg(feature = "sodium")]
 pub mod c01;
 #[cfg(feature = "sodium")]
@@ -118,6 +120,19 @@ pub fn expect(cx: &mut Ctx, sig: &str, ok: bool, case: impl FnOnce() -> Value) -
         cx.violation(sig, case());
     }
     ok
+}
+
+/// caller-side output buffers are handed over full of stale non-zero bytes: an implementation that reads its output
+/// buffer before writing it (accumulates into it, assembles a parameter in it) is right only on fresh zeroed memory
+pub fn stale(n: usize) -> Vec<u8> {
+    (0..n).map(|i| (0xA5u8 ^ (i as u8).wrapping_mul(29)) | 1).collect()
+}
+pub fn stale_arr<const N: usize>() -> [u8; N] {
+    let mut a = [0u8; N];
+    for (i, b) in a.iter_mut().enumerate() {
+        *b = (0xA5u8 ^ (i as u8).wrapping_mul(29)) | 1;
+    }
+    a
 }
 
 /// runs a call into dryoc; a panic is a violation under `<sig_prefix>|panic`
